@@ -2,6 +2,11 @@
 
 package newick
 
+import (
+	"bytes"
+	"fmt"
+)
+
 // Property-level theorems for /verif/govc, written as client programs of the
 // contracted functions. Never called; verified modularly.
 
@@ -31,4 +36,28 @@ func thmQuotedNameInverse(s string) {
 	u := nameFromText(t)
 	//@ assert u == s
 	_ = u
+}
+
+//@ theorem C06.tokenCRLF
+//@   props C06 C05
+//@   requires len(x) >= 1 && forall k int :: 0 <= k && k < len(x) ==> !nwWS(x[k]) && !nwSep(x[k]) && x[k] != 39
+// CR is white space to the tokenizer: a bare token x (a name or a number) is
+// read back as x whether it is followed by LF or by CRLF, and also when a CRLF
+// line break precedes it.
+func thmTokenCRLF(x string) {
+	b1 := &bytes.Buffer{}
+	fmt.Fprintf(b1, "%s\n", x)
+	b2 := &bytes.Buffer{}
+	fmt.Fprintf(b2, "\r\n%s\r\n", x)
+	//@ assert len(b1.out) == len(x) + 1 && b1.out[len(x)] == 10 && forall j int :: 0 <= j && j < len(x) ==> b1.out[j] == x[j]
+	//@ assert len(b2.out) == len(x) + 4 && b2.out[0] == 13 && b2.out[1] == 10 && b2.out[len(x) + 2] == 13 && b2.out[len(x) + 3] == 10
+	//@ assert forall j int :: 0 <= j && j < len(x) ==> b2.out[2 + j] == x[j]
+	//@ assert forall j int :: 0 <= j && j < len(b1.out) ==> b1.out[j] != 39
+	//@ assert forall j int :: 0 <= j && j < len(b2.out) ==> b2.out[j] != 39
+	t1, e1 := newReader(b1).nextToken()
+	t2, e2 := newReader(b2).nextToken()
+	//@ assert e1 == nil && e2 == nil
+	//@ assert len(t1) == len(x) && forall k int :: 0 <= k && k < len(x) ==> t1[k] == x[k]
+	//@ assert len(t2) == len(x) && forall k int :: 0 <= k && k < len(x) ==> t2[k] == x[k]
+	_, _, _, _ = t1, e1, t2, e2
 }
